@@ -23,6 +23,20 @@ def run_check(prop: str, tier: str) -> int:
         mod = importlib.import_module(f"lwsa.props.{prop.lower()}")
         ctx = Ctx(tier=tier)
         res = mod.check(ctx)
+        # positive control: the same rules, on the working tree with one known breaking edit, must report
+        from . import variants
+
+        vid, verdict, rules = variants.run_control(prop, ctx.tree)
+        res.extra["positive_control"] = {"variant": vid, "verdict": verdict, "rules_fired": rules}
+        print(f"CONTROL {vid}: {verdict} {','.join(rules)}")
+        has_viol = any(o.status == "violation" for o in res.obligations)
+        if verdict not in ("violation", "not_applicable") and not has_viol:
+            raise AnalysisError(f"positive control {vid} was not reported ({verdict}): the rules of {prop} no longer match what they must match")
+        if tier == "thorough":
+            results = variants.run_battery(props={prop})
+            summ = variants.summarise(results)
+            res.extra["sensitivity_battery"] = {"summary": summ, "variants": [{"id": r[0], "kind": r[1], "verdict": r[3], "rules": r[4]} for r in results]}
+            print(f"BATTERY {prop}: breaking killed {summ['breaking']['killed']}, survived {summ['breaking']['survived']}, undecided {summ['breaking']['undecided']}; twins silent {summ['twins']['silent']}, false alarms {summ['twins']['false_alarm']}")
         return finish(res, tier, t0)
     except AnalysisError as e:
         print(f"ANALYSIS-ERROR property={prop}: {e}")
@@ -45,6 +59,7 @@ def main(argv=None) -> int:
     e = sub.add_parser("explain")
     e.add_argument("path")
     sub.add_parser("selfcheck")
+    sub.add_parser("battery")
     a = sub.add_parser("all")
     a.add_argument("--tier", default="quick")
     args = ap.parse_args(argv)
@@ -66,10 +81,18 @@ def main(argv=None) -> int:
             print(f"  path: {p}")
         print("re-running the check on the current tree:")
         return run_check(d["property"], "quick")
-    if args.cmd == "selfcheck":
-        from .selftest import run_selftest
+    if args.cmd in ("selfcheck", "battery"):
+        from . import variants
 
-        return run_selftest()
+        results = variants.run_battery()
+        summ = variants.summarise(results)
+        for r in results:
+            exp = "violation" if r[1] == "B" else "silent"
+            if r[3] not in (exp, "not_applicable"):
+                print("UNEXPECTED", r)
+        print(json.dumps(summ))
+        bad = summ["breaking"]["survived"] or summ["breaking"]["undecided"] or summ["twins"]["false_alarm"] or summ["twins"]["undecided"]
+        return 2 if bad else 0
     if args.cmd == "all":
         rc = 0
         for p in PROPS:
